@@ -137,7 +137,10 @@ def find_fn(src: str, msk: str, name: str, impl: str = None):
     Returns dict(sig_start, open, close, impl_range)."""
     ranges = []
     if impl:
-        hdr = r"^[ \t]*(?:unsafe\s+)?impl(?:<[^>{]*>)?\s+" + impl_header_re(impl) + r"\s*(?:where[^{]*)?\{"
+        if impl.startswith("trait "):   # a default method of a trait: `impl trait NAME`
+            hdr = r"^[ \t]*(?:pub(?:\([a-z: ]+\))?\s+)?trait\s+" + re.escape(impl.split()[1]) + r"\b[^{;]*\{"
+        else:
+            hdr = r"^[ \t]*(?:unsafe\s+)?impl(?:<[^>{]*>)?\s+" + impl_header_re(impl) + r"\s*(?:where[^{]*)?\{"
         for m in re.finditer(hdr, msk, flags=re.M):
             ob = m.end() - 1
             cb = match_close(msk, ob)
